@@ -177,6 +177,13 @@ pub fn encode_row(s: &Schema, r: &Row) -> Vec<u8> {
 
 /// Encode an EXD page. `order` permutes the physical order of the rows in the data area.
 pub fn encode_exd(s: &Schema, rows: &[Row], physical_order: &[usize], version: u16) -> Vec<u8> {
+    let identity: Vec<usize> = (0..rows.len()).collect();
+    encode_exd_indexed(s, rows, physical_order, &identity, version)
+}
+
+/// As `encode_exd`; `index_order` additionally permutes the entries of the row index table (a page lists its
+/// rows in any order: a reader has to find a row by its id, not by its position).
+pub fn encode_exd_indexed(s: &Schema, rows: &[Row], physical_order: &[usize], index_order: &[usize], version: u16) -> Vec<u8> {
     let enc: Vec<Vec<u8>> = rows.iter().map(|r| encode_row(s, r)).collect();
     let index_size = rows.len() * 8;
     let data_start = 32 + index_size;
@@ -189,8 +196,8 @@ pub fn encode_exd(s: &Schema, rows: &[Row], physical_order: &[usize], version: u
     let mut w = W::new();
     w.bytes(b"EXDF");
     w.u16be(version).zeros(2).u32be(index_size as u32).u32be((pos - data_start) as u32).zeros(16);
-    for (i, r) in rows.iter().enumerate() {
-        w.u32be(r.id).u32be(offsets[i] as u32);
+    for &i in index_order {
+        w.u32be(rows[i].id).u32be(offsets[i] as u32);
     }
     for &i in physical_order {
         w.bytes(&enc[i]);
